@@ -200,9 +200,22 @@ Definition conv_acc (b : bank) (iv : fmview) (r : regs) (signed : bool) (zp : Z)
                  * pm_get w (((lc * kh + ky) * kw + kx) * idp + ic) 0)
               (zrange idp)) (zrange kw)) (zrange kh)).
 
+(* zero points belong to 8- and 16-bit feature maps: for a 32-bit OFM the OFM_ZERO_POINT register is not applied (Vela
+   itself programs zero point 0 for every 32-bit IFM and reads such intermediates back without an offset) *)
+Definition ofm_zp (r : regs) : Z :=
+  if prec_elem_ofm (r0 r cmd0_NPU_SET_OFM_PRECISION) =? 4 then 0 else s16 (r0 r cmd0_NPU_SET_OFM_ZERO_POINT).
+Definition finish_raw (r : regs) (acc bias scale shift : Z) : Z :=
+  apply_scale (rounding_mode r) (acc + bias) scale shift + ofm_zp r.
 Definition finish (r : regs) (acc bias scale shift : Z) : Z :=
-  let v := apply_scale (rounding_mode r) (acc + bias) scale shift + s16 (r0 r cmd0_NPU_SET_OFM_ZERO_POINT) in
-  clampz (s16 (r0 r cmd0_NPU_SET_ACTIVATION_MIN)) (s16 (r0 r cmd0_NPU_SET_ACTIVATION_MAX)) v.
+  clampz (s16 (r0 r cmd0_NPU_SET_ACTIVATION_MIN)) (s16 (r0 r cmd0_NPU_SET_ACTIVATION_MAX)) (finish_raw r acc bias scale shift).
+
+(* the activation range registers are 16 bits wide: a 32-bit OFM is clamped only when the ACTIVATION register names an explicit
+   clip range (bits 12-13, which Vela sets for table look-ups into a 32-bit OFM), otherwise the 32-bit result is written as it is *)
+Definition wide_unclamped (r : regs) (ofm_elem : Z) : bool :=
+  (ofm_elem =? 4) && (((r0 r cmd0_NPU_SET_ACTIVATION) / 4096) mod 4 =? 0).
+Definition out_clamp (r : regs) (ofm_elem v : Z) : Z :=
+  if wide_unclamped r ofm_elem then v
+  else clampz (s16 (r0 r cmd0_NPU_SET_ACTIVATION_MIN)) (s16 (r0 r cmd0_NPU_SET_ACTIVATION_MAX)) v.
 
 (* activation function: 0 = none; 16 + i = look-up in the 256-entry 8-bit table in LUT slot i of the SHRAM, indexed by the
    clamped 8-bit result counted from the lowest value of the output type (the order in which Vela writes its tables);
@@ -244,7 +257,9 @@ Definition exec_conv (x : xcfg) (m : mem) (code : Z) (r : regs) : option mem :=
                 let k := c mod nc in let lc := c / nc in
                 let w := nth_z wms k (PositiveMap.empty Z) in
                 let '(bias, sc, sh) := pm_get (nth_z sms k (PositiveMap.empty (Z * Z * Z))) lc (0, 0, 0) in
-                (y, xx, c, activate x m r (finish r (conv_acc b iv r sg zp depthwise w y xx c lc (fv_d iv)) bias sc sh)))
+                (y, xx, c, activate x m r (if wide_unclamped r (fv_elem ov)
+                                            then finish_raw r (conv_acc b iv r sg zp depthwise w y xx c lc (fv_d iv)) bias sc sh
+                                            else finish r (conv_acc b iv r sg zp depthwise w y xx c lc (fv_d iv)) bias sc sh)))
              (positions ov)))
   end.
 
@@ -270,29 +285,29 @@ Definition exec_pool (x : xcfg) (m : mem) (param : Z) (r : regs) : option mem :=
     Some (write_ofm m ov
       (map (fun p => let '(y, xx, c) := p in
               let vs := map (fun q => rdv q c) (filter inb (window y xx)) in
-              (y, xx, c, activate x m r (clampz lo hi (fold_left Z.max vs (- 2 ^ 40)))))
+              (y, xx, c, activate x m r (out_clamp r (fv_elem ov) (fold_left Z.max vs (- 2 ^ 40)))))
            (positions ov)))
   else if (param =? 1) && global_scale r then
     let zpi := s16 (r0 r cmd0_NPU_SET_IFM_ZERO_POINT) in
-    let zpo := s16 (r0 r cmd0_NPU_SET_OFM_ZERO_POINT) in
+    let zpo := ofm_zp r in
     let sc := (r1 r cmd1_NPU_SET_OFM_SCALE) mod 4294967296 in
     let sh := (r1 r cmd1_NPU_SET_OFM_SCALE) / 4294967296 in
     Some (write_ofm m ov
       (map (fun p => let '(y, xx, c) := p in
               let acc := sumz (map (fun q => rdv q c - zpi) (filter inb (window y xx))) in
-              (y, xx, c, activate x m r (clampz lo hi (apply_scale (rounding_mode r) acc sc sh + zpo))))
+              (y, xx, c, activate x m r (out_clamp r (fv_elem ov) (apply_scale (rounding_mode r) acc sc sh + zpo))))
            (positions ov)))
   else if param =? 1 then
     (* average pool without a global scale (padding present): modelled as the mean over the valid
        (non-padding) elements of the window, rounded half up; the property allows one step here *)
     let zpi := s16 (r0 r cmd0_NPU_SET_IFM_ZERO_POINT) in
-    let zpo := s16 (r0 r cmd0_NPU_SET_OFM_ZERO_POINT) in
+    let zpo := ofm_zp r in
     Some (write_ofm m ov
       (map (fun p => let '(y, xx, c) := p in
               let win := filter inb (window y xx) in
               let cnt := Z.max 1 (Z.of_nat (List.length win)) in
               let acc := sumz (map (fun q => rdv q c - zpi) win) in
-              (y, xx, c, activate x m r (clampz lo hi ((2 * acc + cnt) / (2 * cnt) + zpo))))
+              (y, xx, c, activate x m r (out_clamp r (fv_elem ov) ((2 * acc + cnt) / (2 * cnt) + zpo))))
            (positions ov)))
   else None.
 
@@ -326,14 +341,14 @@ Definition exec_elementwise (x : xcfg) (m : mem) (mode : Z) (r : regs) : option 
   let rev := (bc / 64) mod 2 =? 1 in
   let scalar := (bc / 128) mod 2 =? 1 in
   if negb (act_ok r (fv_elem iv) (fv_elem ov)) || negb (r0 r cmd0_NPU_SET_IFM_UPSCALE =? 0)
-     || negb (mode <=? 4) || (4 <=? fv_elem iv) || (4 <=? fv_elem ov) then None else
+     || negb (mode <=? 4) then None else
   let b1 := get_bank m (fv_region iv) in
   let b2 := get_bank m (fv_region v2) in
   let sg1 := ifm_signed r in
   let sg2 := (r0 r cmd0_NPU_SET_IFM2_PRECISION) mod 2 =? 1 in
   let zp1 := s16 (r0 r cmd0_NPU_SET_IFM_ZERO_POINT) in
   let zp2 := s16 (r0 r cmd0_NPU_SET_IFM2_ZERO_POINT) in
-  let zpo := s16 (r0 r cmd0_NPU_SET_OFM_ZERO_POINT) in
+  let zpo := ofm_zp r in
   let lo := s16 (r0 r cmd0_NPU_SET_ACTIVATION_MIN) in
   let hi := s16 (r0 r cmd0_NPU_SET_ACTIVATION_MAX) in
   let sc_imm := let v := r0 r cmd0_NPU_SET_IFM2_SCALAR in
@@ -353,7 +368,7 @@ Definition exec_elementwise (x : xcfg) (m : mem) (mode : Z) (r : regs) : option 
             let b := if rev then val1 y xx c else val2 y xx c in
             let v := ew_value (fv_elem iv) mode smode (rounding_mode r) (global_scale r)
                               opa_s opa_sh opb_s ofm_s ofm_sh a b in
-            (y, xx, c, activate x m r (clampz lo hi (v + zpo))))
+            (y, xx, c, activate x m r (out_clamp r (fv_elem ov) (v + zpo))))
          (positions ov))).
 
 Definition exec_dma (m : mem) (r : regs) : option mem :=
